@@ -74,7 +74,8 @@ def r_stmts(stmts, op, ind, out):
   for st in stmts:
     k = st[0]
     if k == "assign":
-      out.append("%s%s %s %s" % (" " * ind, r_path(st[1]), op, r_expr(st[2])))
+      # an optional 4th element overrides the assignment operator (C09 defect injection)
+      out.append("%s%s %s %s" % (" " * ind, r_path(st[1]), st[3] if len(st) > 3 else op, r_expr(st[2])))
     elif k == "tmp":
       out.append("%s%s = %s" % (" " * ind, st[1], r_expr(st[2])))
     elif k == "if":
